@@ -294,6 +294,64 @@ def run(ctx):
                             ctx.counterexample('%s of glob.compile(%r, %s) does not behave like / compare equal to the original: %r vs %r, ==: %r' % (
                                 how, pat, corr.flag_names(fl2), got, want, cl == orig), {'pattern': pat, 'flags': corr.flag_names(fl2), 'how': how})
                             break
+        # every call answers as it does in a fresh interpreter, whatever other calls (translate / compile / match, with and
+        # without REALPATH, MATCHBASE's implicit prefix, pathlib's right-anchored match) ran before it in this process
+        import subprocess
+        import one_call
+        hroot = os.path.join(tmp, 'cl')
+        MB, RP, GS, GL, FO, DG = Gm.MATCHBASE, Gm.REALPATH, Gm.GLOBSTAR, Gm.GLOBSTARLONG, Gm.FOLLOW, Gm.DOTGLOB
+        hcalls = []
+        for pat_ in ('*.txt', 'a.txt', 'sub/*.txt', '**/*.txt'):
+            for fl_h in (MB | RP, MB | RP | GS, MB, MB | RP | GL | FO, RP | GS, MB | RP | DG, GS):
+                hcalls.append({'api': 'gtranslate', 'pattern': pat_, 'flags': fl_h})
+                for nm_ in ('link/a.txt', 'real/a.txt', 'link/sub/b.txt'):
+                    hcalls.append({'api': 'globmatch', 'pattern': pat_, 'flags': fl_h, 'name': nm_, 'root': hroot})
+                hcalls.append({'api': 'gcompile', 'pattern': pat_, 'flags': fl_h, 'name': 'link/a.txt', 'root': hroot})
+            hcalls.append({'api': 'pmatch', 'pattern': pat_, 'flags': RP | GS, 'name': 'link/a.txt', 'root': hroot})
+            hcalls.append({'api': 'pmatch', 'pattern': pat_, 'flags': GS, 'name': 'link/a.txt', 'root': hroot})
+            hcalls.append({'api': 'rglob', 'pattern': pat_, 'flags': GS, 'root': hroot})
+        rng.shuffle(hcalls)
+        hcalls = hcalls[: 40 if ctx.quick else 160]
+        envh = dict(os.environ)
+        fresh = []
+        for c_ in hcalls:
+            pr = subprocess.run([sys.executable, os.path.join(os.path.dirname(os.path.abspath(one_call.__file__)), 'one_call.py'), json.dumps(c_)],
+                                capture_output=True, text=True, env=envh, timeout=120)
+            fresh.append(json.loads(pr.stdout.strip().split('\n')[-1]) if pr.returncode == 0 and pr.stdout.strip() else 'SUBPROCESS-FAILED ' + pr.stderr[-200:])
+        for order in ('forward', 'reverse', 'translate-first', 'match-first'):
+            idxs = list(range(len(hcalls)))
+            if order == 'reverse':
+                idxs.reverse()
+            elif order == 'translate-first':
+                idxs.sort(key=lambda k: hcalls[k]['api'] != 'gtranslate')
+            elif order == 'match-first':
+                idxs.sort(key=lambda k: hcalls[k]['api'] == 'gtranslate')
+            stop = False
+            for k in idxs:
+                evals += 1
+                got = json.loads(json.dumps(one_call.run_call(hcalls[k])))
+                if got != fresh[k]:
+                    ctx.counterexample('%s(%r, %s%s) answers %r after other calls (order: %s) but %r in a fresh interpreter' % (
+                        hcalls[k]['api'], hcalls[k]['pattern'], corr.flag_names(hcalls[k]['flags']), ', ' + hcalls[k]['name'] if hcalls[k].get('name') else '',
+                        str(got)[:120], order, str(fresh[k])[:120]), {'call': {kk: vv for kk, vv in hcalls[k].items() if kk != 'root'}, 'order': order})
+                    stop = True
+                    break
+            if stop:
+                break
+        # no descriptor is left open by walks addressed through dir_fd
+        fdr = os.open(hroot, os.O_RDONLY)
+        try:
+            before = len(os.listdir('/proc/self/fd'))
+            for _ in range(30):
+                Gm.glob('**/*.txt', flags=GS, dir_fd=fdr)
+                list(Gm.iglob('*/*', flags=GS | FO, dir_fd=fdr))
+            after = len(os.listdir('/proc/self/fd'))
+            evals += 1
+            if after > before:
+                ctx.counterexample('60 walks through dir_fd left %d more descriptors open (the same calls will start failing with EMFILE)' % (after - before),
+                                   {'open_before': before, 'open_after': after})
+        finally:
+            os.close(fdr)
         # same dir_fd number reused for another tree
         for k, tree in enumerate(('ta', 'tb')):
             os.mkdir(os.path.join(tmp, tree))
